@@ -7,7 +7,7 @@ use std::hash::Hash;
 use cassadilia::{BlobHash, KeyBytes};
 
 pub const NK: usize = 4;
-pub const CONTENT_NAMES: [&str; 5] = ["A", "B", "C", "E", "G"];
+pub const CONTENT_NAMES: [&str; 6] = ["A", "B", "C", "E", "G", "H"];
 
 pub trait HKey: KeyBytes + Clone + Eq + Ord + Hash + Debug + Send + Sync + 'static {
     /// Four keys, ascending, for the key-type variant `kt`.
@@ -77,6 +77,7 @@ pub fn content_size(name: &str) -> usize {
         "C" => 8192,
         "E" => 0,
         "G" => 70000,
+        "H" => 300000, // larger than any plausible internal read step (256 KiB)
         _ => panic!("unknown content {name}"),
     }
 }
